@@ -3364,7 +3364,15 @@ impl<'a> FnTr<'a> {
                         Ok((format!("(Rt.ck .{} ({} {} {}))", t, paren(&r), o, a), Ty::Opt(Box::new(ity))))
                     }
                     "abs" => Ok((self.act(st, format!("Rt.ck .{} (Int.natAbs {} : Int)", t, paren(&r))), ity)),
+                    // builder F: `uN::count_ones()` (-> u32) of an unsigned value: `Rt.countOnes` of LoraVerif/RtBits.lean (the unit
+                    // must import it; a unit that does not fails to build, loudly)
+                    "count_ones" if t.starts_with('u') && m.args.is_empty() => Ok((format!("(Rt.countOnes {})", paren(&r)), Ty::Int("u32"))),
                     // builder O: big-endian bytes of an unsigned integer
+                    // builder F: `uN::to_le_bytes()`: `Rt.leBytes` of LoraVerif/RtBits.lean (the unit must import it)
+                    "to_le_bytes" if t.starts_with('u') && m.args.is_empty() => {
+                        let n = match t { "u8" => 1, "u16" => 2, "u32" => 4, "u64" | "usize" => 8, _ => return Err(format!("to_le_bytes of {}", t)) };
+                        Ok((format!("(Rt.leBytes {} {})", n, paren(&r)), Ty::Arr(Box::new(Ty::Int("u8")))))
+                    }
                     "to_be_bytes" if !t.starts_with('i') => Ok((format!("(Rt.Phy.beBytes .{} {})", t, paren(&r)), Ty::Arr(Box::new(Ty::Int("u8"))))),
                     // builder L: unsigned `is_multiple_of` (never panics: `x.is_multiple_of(0)` is `x == 0`)
                     "is_multiple_of" if !t.starts_with('i') => {
